@@ -120,8 +120,10 @@ impl Table {
     }
 
     /// First declaration with that fully scoped name (no leading '::').
+    /// (A module declaration never hides a definition of the same scoped name - `struct B` in `module A` next to a
+    /// `module A::B` of another file -: whatever the order of the files, the name designates the definition.)
     pub fn get(&self, scoped: &str) -> Option<&Entity> {
-        self.map.get(scoped).and_then(|v| v.first())
+        self.map.get(scoped).and_then(|v| v.iter().find(|e| e.kind != EKind::Module).or(v.first()))
     }
 
     /// True if the scoped name is declared by entities of different kinds, or more than once by non-modules:
